@@ -7,10 +7,10 @@ PROP = dict(
     stages=[
         dict(name="c05_json", src="harness/c05_json_parse.cc", deps=_DEPS,
              shards_quick=8, shards_thorough=16, timeout_quick=400, timeout_thorough=1500),
-        dict(name="c05_fuzz", kind="fuzz", src="fuzz/c05_json.cc", corpus="corpus/c05", dict="fuzz/c05_json.dict", max_len=4096,
+        dict(name="c05_fuzz", kind="fuzz", src="fuzz/c05_json.cc", corpus="corpus/c05/seeds", dict="fuzz/c05_json.dict", max_len=4096,
              deps=_DEPS + ("fuzz/c05_json.dict",),
              seconds_quick=20, seconds_thorough=480, workers_quick=8, workers_thorough=16, replay_ext="fuzz"),
-        dict(name="c05_fuzz_empty", kind="fuzz", src="fuzz/c05_json.cc", corpus="corpus/c05", empty_corpus=True, max_len=512,
+        dict(name="c05_fuzz_empty", kind="fuzz", src="fuzz/c05_json.cc", corpus="corpus/c05/seeds", empty_corpus=True, max_len=512,
              deps=_DEPS, thorough_only=True, seconds_thorough=90, workers_thorough=8, replay_ext="fuzz"),
         dict(name="c05_py", kind="pydriver", driver="oracle/c05_json_py.py", shim="shim/c05_shim.cc",
              deps=_DEPS + ("shim/shim.hh", "oracle/c04_tree.py", "oracle/hyp_common.py"),
@@ -25,7 +25,7 @@ PROP = dict(
           "keys, empty containers anywhere, nesting up to 500; each with a generated suffix (reader extent), trailing whitespace and "
           "trailing garbage; plus documents with exactly one injected extension (trailing comma, hex integer, n/t/f, // comment); "
           "non-trivial = nesting >= 2 and a fraction/exponent numeral or an escape (every extension case counts). (c) every proper prefix "
-          "and every single-byte delete/replace/insert over 29 structural bytes of 45 fixed documents (complete) and of generated documents; "
+          "and every single-byte delete/replace/insert over 28 structural bytes of 47 fixed documents and 21 fixed non-standard texts (complete) and of generated documents; "
           "non-trivial = the base document is a container of >= 6 bytes. Distinct = distinct case encodings (hash)."),
     assumptions=["bracket nesting <= 500: inputs with more than 500 opening brackets are skipped and counted",
                  "numerals with an exponent of more than 3 digits are skipped and counted (outside the stated domain; they only make the scanner loop up to 2^31 times)",
